@@ -9,6 +9,9 @@
 import Krp.Lemmas.Reward
 import Krp.Init
 import Krp.Lemmas.Reach
+import Krp.Lemmas.Wiring
+import Krp.Lemmas.Bank
+import Krp.Lemmas.NoSwap
 namespace Krp
 open RewardSt
 
@@ -167,7 +170,7 @@ theorem C14_reachable (s : Sys) (l : List Step) (h : s.reward.Inv) : (s.steps l)
       | hub s1 sender funds hm _ _ _ hx' b t r d g => rw [r]; exact hp
       | bsei s1 sender funds tm _ _ hx' h t r d g => rw [r]; exact hp
       | stsei blk sender funds tm _ hx' h b r d g => rw [r]; exact hp
-      | reward s1 sender funds rm _ _ hx' h b t d g => exact C14_inv_step _ _ _ _ _ _ _ _ _ hp hx'
+      | reward s1 sender funds rm _ _ _ _ hx' h b t d g => exact C14_inv_step _ _ _ _ _ _ _ _ _ hp hx'
       | disp env sender funds dm _ hx' h b t r g => rw [r]; exact hp
       | reg s1 sender funds rm _ h1 hx' h b t r d => rw [r]; exact hp)
     (by
@@ -180,5 +183,434 @@ theorem C14_reachable (s : Sys) (l : List Step) (h : s.reward.Inv) : (s.steps l)
     l s h
 
 example : genesisSys.reward.Inv := C14_inv_init 1 hubA 1 swapA [0, 1]
+
+/-! ### The recorded balance is really there: reward contract vs. bank, over every history
+
+  `prev_reward_balance` is what claims are paid from.  Invariant carried through the message queue:
+
+      recorded balance + reward coins about to leave the contract (its own pending messages)
+        ≤ the contract's bank balance in the reward denom
+
+  Only messages *sent by* the reward contract can lower its bank balance (`handle_bank_ge`); it
+  emits them at the front of the queue, so none is pending when the next index update records the
+  bank balance. -/
+
+/-- reward-denom coins message `m` takes out of the reward contract's account -/
+def outflow (rd : Denom) : Msg → Nat
+  | .bankSend src _ d amt => if src = rewardA ∧ d = rd then amt else 0
+  | .wasm s _ _ f => if s = rewardA then fundsOf rd f else 0
+  | _ => 0
+
+def outflowAll (rd : Denom) (q : List Msg) : Nat := (q.map (outflow rd)).sum
+
+/-- what the reward contract, and the swap stub answering it, put in the queue -/
+def isRw : Msg → Bool
+  | .bankSend src _ _ _ => src == rewardA || src == swapA
+  | .wasm s _ (.swapDenom _ _ _ _) _ => s == rewardA
+  | _ => false
+
+theorem outflowAll_append (rd : Denom) (x y : List Msg) :
+    outflowAll rd (x ++ y) = outflowAll rd x + outflowAll rd y := by simp [outflowAll]
+
+theorem outflow_not_from (rd : Denom) (m : Msg) (h : m.sentFrom ≠ rewardA) : outflow rd m = 0 := by
+  cases m <;> simp_all [outflow, Msg.sentFrom]
+
+theorem outflowAll_not_from (rd : Denom) (q : List Msg) (h : ∀ x ∈ q, x.sentFrom ≠ rewardA) :
+    outflowAll rd q = 0 := by
+  induction q with
+  | nil => rfl
+  | cons m ms ih =>
+    have := outflow_not_from rd m (h m (List.mem_cons_self ..))
+    have r := ih (fun x hx => h x (List.mem_cons_of_mem _ hx))
+    simp only [outflowAll, List.map_cons, List.sum_cons] at r ⊢
+    omega
+
+/-- **One reward-contract message, on the funds.** If the recorded balance is covered by the bank
+    balance `bb` the handler sees, then after any accepted message everything it emits is of the
+    expected shape and  recorded' + reward coins it sends out ≤ bb. -/
+theorem reward_fund_step (r r' : RewardSt) (tok dsp : Res Addr) (bb : Denom → Nat) (sender : Addr)
+    (m : RewMsg) (ms : List Msg) (hns : m ≠ .swapToRewardDenom)
+    (hB : r.prevRewardBalance ≤ bb r.rewardDenom)
+    (hx : rewardExec r rewardA tok dsp bb sender m = .ok (r', ms)) :
+    (∀ x ∈ ms, isRw x = true) ∧ r'.prevRewardBalance + outflowAll r.rewardDenom ms ≤ bb r.rewardDenom := by
+  cases m with
+  | claim rcp =>
+    simp only [rewardExec] at hx; exc_norm at hx; exc_split at hx
+    rename_i hlt
+    refine ⟨fun x hx' => ?_, ?_⟩
+    · simp only [List.mem_cons, List.mem_nil_iff, or_false] at hx'; subst hx'; simp [isRw]
+    · simp only [outflowAll, List.map_cons, List.map_nil, List.sum_cons, List.sum_nil, outflow, and_self, if_true,
+        RewardSt.setHolder]
+      omega
+  | swapToRewardDenom => exact absurd rfl hns
+  | updateGlobalIndex =>
+    simp only [rewardExec] at hx; exc_norm at hx; exc_split at hx
+    · exact ⟨(fun _ h => by cases h), by simpa [outflowAll] using hB⟩
+    · exact ⟨(fun _ h => by cases h), by simp [outflowAll]⟩
+  | increase a amt =>
+    simp only [rewardExec] at hx; exc_norm at hx; exc_split at hx
+    exact ⟨(fun _ h => by cases h), by simpa [outflowAll, RewardSt.setHolder] using hB⟩
+  | decrease a amt =>
+    simp only [rewardExec] at hx; exc_norm at hx; exc_split at hx
+    exact ⟨(fun _ h => by cases h), by simpa [outflowAll, RewardSt.setHolder] using hB⟩
+  | updateConfig a b c =>
+    simp only [rewardExec] at hx; exc_norm at hx; exc_split at hx
+    exact ⟨(fun _ h => by cases h), by simpa [outflowAll] using hB⟩
+  | setOwner a =>
+    simp only [rewardExec] at hx; exc_norm at hx; exc_split at hx
+    exact ⟨(fun _ h => by cases h), by simpa [outflowAll] using hB⟩
+  | acceptOwnership =>
+    simp only [rewardExec] at hx; exc_norm at hx; exc_split at hx
+    exact ⟨(fun _ h => by cases h), by simpa [outflowAll] using hB⟩
+  | updateSwapDenom d add =>
+    simp only [rewardExec] at hx; exc_norm at hx; exc_split at hx
+    all_goals exact ⟨(fun _ h => by cases h), by simpa [outflowAll] using hB⟩
+
+/-- everything carried from message to message; `o` = (owner, nominee) of the reward contract,
+    `rd` its reward denom -/
+structure FundInv (o : Addr × Addr) (rd : Denom) (s : Sys) (q : List Msg) : Prop where
+  owner : s.reward.owner = o.1
+  nominee : s.reward.newOwner = o.2
+  ext1 : External o.1
+  ext2 : External o.2
+  denom : s.reward.rewardDenom = rd
+  noSwap : ∀ m ∈ q, isRwSwap m = false
+  senders : ∀ m ∈ q, ∀ a b c d, m = .wasm a b c d → a ≠ o.1 ∧ a ≠ o.2
+  split : ∃ A rest, q = A ++ rest ∧ (∀ x ∈ A, isRw x = true) ∧ (∀ x ∈ rest, x.sentFrom ≠ rewardA) ∧
+    s.reward.prevRewardBalance + outflowAll rd A ≤ s.chain.bank rewardA rd
+
+theorem FundInv.drained {o : Addr × Addr} {rd : Denom} {s : Sys} (h : FundInv o rd s []) :
+    s.reward.prevRewardBalance ≤ s.chain.bank rewardA s.reward.rewardDenom := by
+  obtain ⟨A, rest, hq, _, _, hle⟩ := h.split
+  have : A = [] := by
+    cases A with
+    | nil => rfl
+    | cons p t => simp only [List.cons_append] at hq; cases hq
+  subst this
+  rw [h.denom]
+  simpa [outflowAll] using hle
+
+theorem internal_ne_ext {a x : Addr} (ha : a ∈ internal) (hx : External x) : a ≠ x :=
+  fun h => hx (h ▸ ha)
+
+theorem FundInv.step (o : Addr × Addr) (rd : Denom) (s s' : Sys) (m : Msg) (rest0 subs : List Msg)
+    (inv : FundInv o rd s (m :: rest0)) (hx : s.handle m = .ok (s', subs)) :
+    FundInv o rd s' (subs ++ rest0) := by
+  obtain ⟨A, rest, hq, hA, hrest, hle⟩ := inv.split
+  have sent := handle_sentBy s s' m subs hx
+  have hsnd := inv.senders m (List.mem_cons_self ..)
+  have restSenders : ∀ x ∈ rest0, ∀ a b c d, x = .wasm a b c d → a ≠ o.1 ∧ a ≠ o.2 :=
+    fun x hx' => inv.senders x (List.mem_cons_of_mem _ hx')
+  -- senders of what is emitted: the handling contract, an internal address
+  have subSenders : ∀ x ∈ subs, ∀ a b c d, x = .wasm a b c d → a ≠ o.1 ∧ a ≠ o.2 := by
+    intro x hx' a b c d hxe
+    cases m with
+    | wasm a0 b0 c0 d0 =>
+      have hb := (sent.1 a0 b0 c0 d0 rfl) x hx'
+      rw [hxe] at hb
+      have hin : b0 ∈ internal := by
+        cases handle_touch s s' _ subs hx with
+        | none _ hm _ _ =>
+          rcases hm with hm | ⟨_, _, _, _, heq, ht⟩
+          · exact absurd rfl (hm _ _ _ _)
+          · injection heq with _ e2 _ _; subst e2
+            rcases ht with ht | ht <;> simp [ht, internal]
+        | hub _ _ _ _ heq _ _ _ _ _ _ _ _ => injection heq with _ e2 _ _; simp [e2, internal]
+        | bsei _ _ _ _ heq _ _ _ _ _ _ _ => injection heq with _ e2 _ _; simp [e2, internal]
+        | stsei _ _ _ _ heq _ _ _ _ _ _ => injection heq with _ e2 _ _; simp [e2, internal]
+        | reward _ _ _ _ heq _ _ _ _ _ _ _ _ _ => injection heq with _ e2 _ _; simp [e2, internal]
+        | disp _ _ _ _ heq _ _ _ _ _ _ => injection heq with _ e2 _ _; simp [e2, internal]
+        | reg _ _ _ _ heq _ _ _ _ _ _ _ => injection heq with _ e2 _ _; simp [e2, internal]
+      have ha : a = b0 := hb
+      rw [ha]
+      exact ⟨internal_ne_ext hin inv.ext1, internal_ne_ext hin inv.ext2⟩
+    | _ =>
+      have := sent.2 (fun _ _ _ _ h => by cases h)
+      rw [this] at hx'; cases hx'
+  have allSenders : ∀ x ∈ subs ++ rest0, ∀ a b c d, x = .wasm a b c d → a ≠ o.1 ∧ a ≠ o.2 := by
+    intro x hx' a b c d hxe
+    rcases List.mem_append.mp hx' with h | h
+    · exact subSenders x h a b c d hxe
+    · exact restSenders x h a b c d hxe
+  have allNoSwap : ∀ x ∈ subs ++ rest0, isRwSwap x = false := by
+    intro x hx'
+    rcases List.mem_append.mp hx' with h | h
+    · exact handle_noSwap s s' m subs hx x h
+    · exact inv.noSwap x (List.mem_cons_of_mem _ h)
+  -- the reward contract's configuration: untouched unless its owner / nominee sent the message
+  have cfg : s'.reward.owner = s.reward.owner ∧ s'.reward.newOwner = s.reward.newOwner ∧
+      s'.reward.rewardDenom = s.reward.rewardDenom ∧ s'.reward.swapDenoms = s.reward.swapDenoms := by
+    cases handle_touch s s' m subs hx with
+    | none h _ _ _ => rw [h.reward]; exact ⟨rfl, rfl, rfl, rfl⟩
+    | hub _ _ _ _ _ _ _ _ _ _ r _ _ => rw [r]; exact ⟨rfl, rfl, rfl, rfl⟩
+    | bsei _ _ _ _ _ _ _ _ _ r _ _ => rw [r]; exact ⟨rfl, rfl, rfl, rfl⟩
+    | stsei _ _ _ _ _ _ _ _ r _ _ => rw [r]; exact ⟨rfl, rfl, rfl, rfl⟩
+    | disp _ _ _ _ _ _ _ _ _ r _ => rw [r]; exact ⟨rfl, rfl, rfl, rfl⟩
+    | reg _ _ _ _ _ _ _ _ _ _ r _ => rw [r]; exact ⟨rfl, rfl, rfl, rfl⟩
+    | reward s1 sender funds rm heq h1 _ _ hx' _ _ _ _ _ =>
+      have hs := hsnd _ _ _ _ heq
+      have c1 := rewardExec_config _ _ _ _ _ _ _ _ _ hx'
+      have c2 := rewardExec_config2 _ _ _ _ _ _ _ _ _ hx'
+      rcases c1 with c1 | c1 | c1
+      · rcases c2 with c2 | c2
+        · exact ⟨c1.2.1, c1.2.2, c2.1, c2.2.1⟩
+        · exact absurd (c2.trans inv.owner) hs.1
+      · exact absurd (c1.trans inv.owner) hs.1
+      · exact absurd (c1.trans inv.nominee) hs.2
+  have base : ∀ (A' rest' : List Msg), subs ++ rest0 = A' ++ rest' → (∀ x ∈ A', isRw x = true) →
+      (∀ x ∈ rest', x.sentFrom ≠ rewardA) →
+      s'.reward.prevRewardBalance + outflowAll rd A' ≤ s'.chain.bank rewardA rd →
+      FundInv o rd s' (subs ++ rest0) :=
+    fun A' rest' e1 e2 e3 e4 => ⟨cfg.1.trans inv.owner, cfg.2.1.trans inv.nominee, inv.ext1, inv.ext2,
+      cfg.2.2.1.trans inv.denom, allNoSwap, allSenders, A', rest', e1, e2, e3, e4⟩
+  cases A with
+  | cons p A' =>
+    -- the head is one of the reward contract's own pending messages (or the stub's answer)
+    simp only [List.cons_append] at hq
+    injection hq with h1 h2
+    subst h1
+    have hm := hA m (List.mem_cons_self ..)
+    have hA' : ∀ x ∈ A', isRw x = true := fun x hx' => hA x (List.mem_cons_of_mem _ hx')
+    simp only [outflowAll, List.map_cons, List.sum_cons] at hle
+    cases m with
+    | bankSend src dst d amt =>
+      have hsub : subs = [] := sent.2 (fun _ _ _ _ h => by cases h)
+      have hrw : s'.reward = s.reward := by
+        cases handle_touch s s' _ subs hx with
+        | none h _ _ _ => exact h.reward
+        | hub _ _ _ _ heq _ _ _ _ _ _ _ _ => cases heq
+        | bsei _ _ _ _ heq _ _ _ _ _ _ _ => cases heq
+        | stsei _ _ _ _ heq _ _ _ _ _ _ => cases heq
+        | reward _ _ _ _ heq _ _ _ _ _ _ _ _ _ => cases heq
+        | disp _ _ _ _ heq _ _ _ _ _ _ => cases heq
+        | reg _ _ _ _ heq _ _ _ _ _ _ _ => cases heq
+      subst hsub
+      refine base A' rest (by simp [h2]) hA' hrest ?_
+      rw [hrw]
+      by_cases hs : src = rewardA
+      · subst hs
+        by_cases hd : d = rd
+        · subst hd
+          have := (handle_bank_out s s' _ [] hx rewardA d).1 dst amt rfl
+          simp only [outflow, and_self, if_true] at hle
+          simp only [outflowAll] at hle ⊢; omega
+        · have := (handle_bank_out s s' _ [] hx rewardA rd).2.1 dst d amt rfl hd
+          simp only [outflow, hd, and_false, if_false] at hle
+          simp only [outflowAll] at hle ⊢; omega
+      · have := handle_bank_ge s s' _ [] hx rewardA rd (by simpa [Msg.sentFrom] using hs)
+        simp only [outflow, hs, false_and, if_false] at hle
+        simp only [outflowAll] at hle ⊢; omega
+    | wasm a b c d =>
+      cases c with
+      | swapDenom sd amt dd to =>
+        have ha : a = rewardA := by simpa [isRw] using hm
+        subst ha
+        cases handle_touch s s' _ subs hx with
+        | none h _ hs hb =>
+          have out := (handle_bank_out s s' _ subs hx rewardA rd).2.2 b _ d rfl
+          have hsubRw : ∀ x ∈ subs, isRw x = true := by
+            intro x hx'
+            obtain ⟨t, dn, am, he⟩ := hb x hx'
+            subst he; simp [isRw]
+          have hsub0 : outflowAll rd subs = 0 :=
+            outflowAll_not_from rd subs (fun x hx' => by rw [hs x hx']; decide)
+          refine base (subs ++ A') rest (by rw [h2, List.append_assoc]) ?_ hrest ?_
+          · intro x hx'
+            rcases List.mem_append.mp hx' with h' | h'
+            · exact hsubRw x h'
+            · exact hA' x h'
+          · rw [h.reward, outflowAll_append, hsub0]
+            simp only [outflow, if_true] at hle
+            simp only [outflowAll] at hle ⊢; omega
+        | hub _ _ _ _ heq _ _ _ _ _ _ _ _ => injection heq with _ _ e3 _; cases e3
+        | bsei _ _ _ _ heq _ _ _ _ _ _ _ => injection heq with _ _ e3 _; cases e3
+        | stsei _ _ _ _ heq _ _ _ _ _ _ => injection heq with _ _ e3 _; cases e3
+        | reward _ _ _ _ heq _ _ _ _ _ _ _ _ _ => injection heq with _ _ e3 _; cases e3
+        | disp _ _ _ _ heq _ _ _ _ _ _ => injection heq with _ _ e3 _; cases e3
+        | reg _ _ _ _ heq _ _ _ _ _ _ _ => injection heq with _ _ e3 _; cases e3
+      | _ => simp [isRw] at hm
+    | _ => simp [isRw] at hm
+  | nil =>
+    -- nothing of the reward contract's is pending
+    simp only [List.nil_append] at hq
+    have hmr : m.sentFrom ≠ rewardA := hrest m (by rw [← hq]; exact List.mem_cons_self ..)
+    have hr0 : ∀ x ∈ rest0, x.sentFrom ≠ rewardA := fun x hx' => hrest x (by rw [← hq]; exact List.mem_cons_of_mem _ hx')
+    have hB : s.reward.prevRewardBalance ≤ s.chain.bank rewardA rd := by simpa [outflowAll] using hle
+    have bank' := handle_bank_ge s s' m subs hx rewardA rd hmr
+    -- generic conclusion: reward contract untouched, emitted messages not from it
+    have other : s'.reward = s.reward → (∀ x ∈ subs, x.sentFrom ≠ rewardA) → FundInv o rd s' (subs ++ rest0) := by
+      intro hrw hsub
+      refine base [] (subs ++ rest0) rfl (fun _ h => by cases h) ?_ ?_
+      · intro x hx'
+        rcases List.mem_append.mp hx' with h | h
+        · exact hsub x h
+        · exact hr0 x h
+      · rw [hrw]; simp only [outflowAll, List.map_nil, List.sum_nil, Nat.add_zero]; omega
+    cases handle_touch s s' m subs hx with
+    | none h hm' hs _ => exact other h.reward (fun x hx' => by rw [hs x hx']; decide)
+    | hub s1 sender funds hm' heq _ _ _ _ _ r _ _ =>
+      exact other r (fun x hx' => by rw [(sent.1 _ _ _ _ heq) x hx']; decide)
+    | bsei s1 sender funds tm heq _ _ _ _ r _ _ =>
+      exact other r (fun x hx' => by rw [(sent.1 _ _ _ _ heq) x hx']; decide)
+    | stsei blk sender funds tm heq _ _ _ r _ _ =>
+      exact other r (fun x hx' => by rw [(sent.1 _ _ _ _ heq) x hx']; decide)
+    | disp env sender funds dm heq _ _ _ _ r _ =>
+      exact other r (fun x hx' => by rw [(sent.1 _ _ _ _ heq) x hx']; decide)
+    | reg s1 sender funds rm heq _ _ _ _ _ r _ =>
+      exact other r (fun x hx' => by rw [(sent.1 _ _ _ _ heq) x hx']; decide)
+    | reward s1 sender funds rm heq h1 hmv hch hx' _ _ _ _ _ =>
+      -- the handler sees the bank balance after the attached funds arrived
+      have hs1 : s1.chain.bank rewardA rd ≥ s.chain.bank rewardA rd := by
+        have := moveFunds_bank sender rewardA funds s s1 hmv rewardA rd
+        have hne : ¬ rewardA = sender := by
+          intro h; apply hmr; rw [heq]; exact h.symm
+        simp only [hne, if_false] at this; omega
+      have hnsw : rm ≠ .swapToRewardDenom := by
+        intro h
+        have := inv.noSwap m (List.mem_cons_self ..)
+        rw [heq, h] at this; cases this
+      have step := reward_fund_step s.reward s'.reward _ _ _ sender rm subs
+        hnsw (by rw [inv.denom]; exact Nat.le_trans hB hs1) hx'
+      refine base subs rest0 rfl step.1 hr0 ?_
+      rw [inv.denom] at step
+      rw [hch]; exact step.2
+
+theorem env_bank_ge (s : Sys) (e : EnvOp) (a : Addr) (d : Denom) (ha : a ≠ hubA) :
+    (s.env e).chain.bank a d ≥ s.chain.bank a d := by
+  cases e with
+  | advance dt => simp [Sys.env, Sys.setBank, upd, ha]
+  | slash v n dd => simp only [Sys.env]; split <;> exact Nat.le_refl _
+  | slashUnbonding v n dd => simp only [Sys.env]; split <;> exact Nat.le_refl _
+  | donate x dd amt =>
+    simp only [Sys.env, Sys.setBank, upd]
+    by_cases h1 : a = x <;> by_cases h2 : d = dd <;> simp_all
+  | _ => exact Nat.le_refl _
+
+/-- a history step allowed under E3 for this theorem: an environment event, or a top-level contract
+    call by an outside account that is neither the reward contract's owner nor its nominee -/
+def RewQuiet (o : Addr × Addr) : Step → Prop
+  | .env _ => True
+  | .tx m => ∃ a b c d, m = .wasm a b c d ∧ External a ∧ a ≠ o.1 ∧ a ≠ o.2 ∧ isRwSwap m = false
+
+/-- **Every reachable state: the recorded reward balance is in the bank.** From any state in which
+    the reward contract's recorded balance is covered by its bank balance in the reward denom (owner
+    and nominee outside accounts), after any history of any length of outside, non-owner transactions with any
+    environment events interleaved, it still is. With `C14_reachable` (Σ owed ≤ recorded balance)
+    this is: what holders can claim is always really there. -/
+theorem C14_funded (s : Sys) (l : List Step)
+    (e1 : External s.reward.owner) (e2 : External s.reward.newOwner)
+    (hB : s.reward.prevRewardBalance ≤ s.chain.bank rewardA s.reward.rewardDenom)
+    (hq : ∀ st ∈ l, RewQuiet (s.reward.owner, s.reward.newOwner) st) :
+    (s.steps l).reward.prevRewardBalance ≤ (s.steps l).chain.bank rewardA (s.steps l).reward.rewardDenom := by
+  have key : ∀ (l : List Step) (x : Sys),
+      FundInv (s.reward.owner, s.reward.newOwner) s.reward.rewardDenom x [] →
+      (∀ st ∈ l, RewQuiet (s.reward.owner, s.reward.newOwner) st) →
+      FundInv (s.reward.owner, s.reward.newOwner) s.reward.rewardDenom (x.steps l) [] := by
+    intro l
+    induction l with
+    | nil => intro x hx _; exact hx
+    | cons st rest ih =>
+      intro x inv hq'
+      show FundInv _ _ ((x.step st).steps rest) []
+      apply ih _ _ (fun st' h' => hq' st' (List.mem_cons_of_mem _ h'))
+      have hst := hq' st (List.mem_cons_self ..)
+      obtain ⟨A, rest', hq0, _, _, hle⟩ := inv.split
+      have hA : A = [] := by
+        cases A with
+        | nil => rfl
+        | cons p t => simp only [List.cons_append] at hq0; cases hq0
+      subst hA
+      have hB' : x.reward.prevRewardBalance ≤ x.chain.bank rewardA s.reward.rewardDenom := by
+        simpa [outflowAll] using hle
+      cases st with
+      | env e =>
+        show FundInv _ _ (x.env e) []
+        have bge := env_bank_ge x e rewardA s.reward.rewardDenom (by decide)
+        have rsame : (x.env e).reward = x.reward := by
+          cases e with
+          | seedLegacy u b a => rfl
+          | slash v n d => simp only [Sys.env]; split <;> rfl
+          | slashUnbonding v n d => simp only [Sys.env]; split <;> rfl
+          | _ => rfl
+        exact ⟨by rw [rsame]; exact inv.owner, by rw [rsame]; exact inv.nominee, inv.ext1, inv.ext2,
+          by rw [rsame]; exact inv.denom, (fun _ h => by cases h), (fun _ h => by cases h),
+          [], [], rfl, (fun _ h => by cases h), (fun _ h => by cases h),
+          by rw [rsame]; simp only [outflowAll, List.map_nil, List.sum_nil, Nat.add_zero]; omega⟩
+      | tx m =>
+        obtain ⟨a, b, c, d, hm', hext, hn1, hn2, hnsw⟩ := hst
+        show FundInv _ _ (x.exec m).1 []
+        unfold Sys.exec
+        split
+        · rename_i x' hrun
+          refine run_inv2 (FundInv _ _) (fun s0 m0 rest0 s1 subs0 => FundInv.step _ _ s0 s1 m0 rest0 subs0)
+            400 x [m] x' ?_ hrun
+          refine ⟨inv.owner, inv.nominee, inv.ext1, inv.ext2, inv.denom,
+            (by intro x0 hx0; simp only [List.mem_cons, List.mem_nil_iff, or_false] at hx0; subst hx0; exact hnsw), ?_, [], [m], rfl,
+            (fun _ h => by cases h), ?_, by simpa [outflowAll] using hB'⟩
+          · intro m1 hm1 a1 b1 c1 d1 he1
+            simp only [List.mem_cons, List.mem_nil_iff, or_false] at hm1
+            subst hm1
+            rw [hm'] at he1; injection he1 with e1' _ _ _
+            rw [← e1']; exact ⟨hn1, hn2⟩
+          · intro x0 hx0
+            simp only [List.mem_cons, List.mem_nil_iff, or_false] at hx0
+            subst hx0
+            rw [hm']
+            intro h
+            apply hext
+            have : a = rewardA := h
+            rw [this]; simp [internal]
+        · exact inv
+  have fin := key l s ⟨rfl, rfl, e1, e2, rfl, (fun _ h => by cases h), (fun _ h => by cases h), [], [], rfl,
+    (fun _ h => by cases h), (fun _ h => by cases h), by simpa [outflowAll] using hB⟩ hq
+  exact fin.drained
+
+/-- Non-vacuity: the genesis state of the corpus meets the premises. -/
+example : External genesisSys.reward.owner ∧ External genesisSys.reward.newOwner ∧
+    genesisSys.reward.prevRewardBalance ≤ genesisSys.chain.bank rewardA genesisSys.reward.rewardDenom := by
+  refine ⟨?_, ?_, ?_⟩ <;> (try unfold External) <;> decide
+
+/-- **ClaimRewards never fails for lack of funds — as a whole transaction.** In any state where
+    the reward contract's invariant holds and its recorded balance is in the bank (every reachable
+    state: `C14_reachable`, `C14_funded`), a holder who is owed at least one whole unit claims
+    successfully: the handler accepts, the bank transfer it emits goes through, and exactly
+    floor(owed) of the reward denom reaches the holder. -/
+theorem C14_claim_tx_succeeds (s : Sys) (sender : Addr) (inv : s.reward.Inv)
+    (hB : s.reward.prevRewardBalance ≤ s.chain.bank rewardA s.reward.rewardDenom)
+    (hpos : D ≤ s.reward.owed sender) :
+    ∃ s', s.exec (.wasm sender rewardA (.reward (.claim none)) []) = (s', .ok ()) ∧
+      s'.chain.bank sender s.reward.rewardDenom + (if sender = rewardA then s.reward.owed sender / D else 0) =
+        s.chain.bank sender s.reward.rewardDenom + s.reward.owed sender / D := by
+  obtain ⟨r', hcl, _, hprev, _⟩ := C14_claim_pays s.reward rewardA (s.hubTokenOf s.reward.hub)
+    (s.hubDispatcherOf s.reward.hub) (s.chain.bank rewardA) sender none inv hpos
+  have hq : 0 < s.reward.owed sender / D := Nat.div_pos hpos D_pos
+  have h1 : s.handle (.wasm sender rewardA (.reward (.claim none)) []) =
+      .ok ({ s with reward := r' }, [Msg.bankSend rewardA sender s.reward.rewardDenom (s.reward.owed sender / D)]) := by
+    simp only [Sys.handle, Sys.moveFunds, bind, Except.bind, pure, Except.pure]
+    rw [if_neg (by decide), if_neg (by decide), if_neg (by decide), if_pos trivial]
+    simp only [hcl, Option.getD]
+  -- the transfer the claim emits
+  obtain ⟨s1, hs1⟩ : ∃ x : Sys, x = { s with reward := r' } := ⟨_, rfl⟩
+  rw [← hs1] at h1
+  have hch : s1.chain = s.chain := by rw [hs1]
+  have hbank : ¬ s1.chain.bank rewardA s.reward.rewardDenom < s.reward.owed sender / D := by
+    rw [hch]; omega
+  obtain ⟨s2, hs2⟩ : ∃ x : Sys, x = (s1.setBank rewardA s.reward.rewardDenom
+      (s1.chain.bank rewardA s.reward.rewardDenom - s.reward.owed sender / D)).setBank sender s.reward.rewardDenom
+      ((s1.setBank rewardA s.reward.rewardDenom
+        (s1.chain.bank rewardA s.reward.rewardDenom - s.reward.owed sender / D)).chain.bank
+          sender s.reward.rewardDenom + s.reward.owed sender / D) := ⟨_, rfl⟩
+  have h2 : s1.handle (Msg.bankSend rewardA sender s.reward.rewardDenom (s.reward.owed sender / D)) = .ok (s2, []) := by
+    simp only [Sys.handle, Sys.bankMove, bind, Except.bind, pure, Except.pure]
+    rw [if_neg (by omega), if_neg hbank, hs2]
+  refine ⟨s2, ?_, ?_⟩
+  · unfold Sys.exec
+    simp only [Sys.run, h1, List.nil_append, List.append_nil, h2]
+  · rw [hs2]
+    simp only [Sys.setBank, upd, hch]
+    by_cases hs : sender = rewardA
+    · subst hs; simp; omega
+    · have : ¬ rewardA = sender := fun h => hs h.symm
+      simp [hs, this]
 
 end Krp
